@@ -9,10 +9,15 @@ NOTES = """Interpretation choices (read generously, see BUILDING.md rule 1):
   OPF; each entry resolved through its relationship / manifest item. The order of the relationship or
   manifest entries, the numbers in the file names and the archive order are three further, independent
   orders that must not matter.
-* every generated package is valid: all declared parts exist ('readable'), so page count = number of
-  declared parts. Undeclared members ('decoys': a part-like file nobody references; an EPUB manifest item
+* 'declared, readable': in some profiles ONE declared part is absent from the archive (its list entry and
+  relationship / manifest item are there, the member is not). Such a part is not readable: it gets no page, is
+  not counted, and nothing may be shown in its place - neither another declared part nor an undeclared member
+  that carries the conventional name (xl/worksheets/sheet<position>.xml, ppt/slides/slide<position>.xml). The
+  other parts keep their declared order. If a reader REFUSES such a document with an error, that is NOT
+  asserted (the statement does not say a damaged package must be opened); on the current tree xlsx, pptx and
+  epubdoc all skip the part silently, so the assertions apply. Undeclared members ('decoys': a part-like file nobody references; an EPUB manifest item
   that is not in the spine; the EPUB 3 navigation document, which is not put into the spine) must not be
-  presented or counted. Parts that are declared but missing are NOT generated (that is an invalid package).
+  presented or counted.
 * Text() and ToMarkdown() do not delimit pages: only the order of the content tokens and 'each exactly once'
   are asserted there; Document().Pages[i] and the format readers are asserted page by page.
 * EPUB hrefs are URLs relative to the package document: %20 is a space, %2B and a literal '+' are a plus
@@ -25,13 +30,15 @@ NOTES = """Interpretation choices (read generously, see BUILDING.md rule 1):
 EVIDENCE = dict(
     level="model_checking",
     rule="cases = every package PartsOrderMC.tla builds from K parts (K=3 quick, 4 thorough) x three independent permutations "
-         "(declared order, relationship/manifest listing order, archive order; file-name order = part number) x 19 layout profiles "
-         "(XLSX, PPTX, EPUB 2/3; nested / renamed / ../ paths; absolute targets; %20, '+', %2B; decoys; optional parts) plus -simulate "
-         "packages over the full option product; TLC proves DeclaredOrder for the declared/path reader and refutes the file-name, archive "
-         "and query-decoding readers. Each package is rendered by an independent writer and opened through tabula.Open (PageCount, Text, "
+         "(declared order, relationship/manifest listing order, archive order; file-name order = part number) x 28 layout profiles "
+         "(XLSX, PPTX, EPUB 2/3; nested / renamed / ../ paths; absolute targets; %20, '+', %2B; decoys; optional parts; one declared part "
+         "absent from the archive, with other parts or decoys under the conventional sheet<k>/slide<k> names) plus -simulate "
+         "packages over the full option product; TLC proves DeclaredOrder for the declared/path reader and refutes the file-name, archive, "
+         "query-decoding and conventional-name-fallback readers. Each package is rendered by an independent writer and opened through tabula.Open (PageCount, Text, "
          "ToMarkdown, Document) and the format reader; random packages of up to 10 parts are validated by PartsOrderTrace.tla. "
          "Non-trivial = declared order differs from file-name order; distinct by case text.",
-    assumptions=["declared-but-missing parts are not generated", "notes/masters/layouts carry no content tokens",
+    assumptions=["a reader that refuses a package with an absent declared part is not judged (only silent substitution / miscounting is)",
+                 "notes/masters/layouts carry no content tokens",
                  "TLC 1.8.0 + CommunityModules (Json) and the harness writer ooxmlw (audited per run with python zipfile/xml.etree) are trusted"],
 )
 
@@ -41,13 +48,13 @@ def _selftest(ctx, cases):
     for r in res:
         info = r.get("replay") or {}
         try:
-            d = info["declared"]
+            d, ab = info["declared"], tuple(info.get("absent") or ())
             if info["fmt"] == "xlsx":
-                audit.audit_xlsx(info["path"], info["members"], declared=[(x[2], x[0]) for x in d])
+                audit.audit_xlsx(info["path"], info["members"], declared=[(x[2], x[0]) for x in d], absent=ab)
             elif info["fmt"] == "pptx":
-                audit.audit_pptx(info["path"], info["members"], declared=[(x[0], x[1]) for x in d])
+                audit.audit_pptx(info["path"], info["members"], declared=[(x[0], x[1]) for x in d], absent=ab)
             else:
-                audit.audit_epub(info["path"], info["members"], declared=[(x[0], x[1]) for x in d])
+                audit.audit_epub(info["path"], info["members"], declared=[(x[0], x[1]) for x in d], absent=ab)
             # the parts appear in the archive in exactly the order the case asked for
             pos = [info["members"].index(n) for n in info["ziporder"]]
             if pos != sorted(pos):
@@ -128,6 +135,7 @@ def run(ctx):
     ctx.tlc("PartsOrderMC", "PartsOrder_mc_impl_filename.cfg", expect_violation=True)
     ctx.tlc("PartsOrderMC", "PartsOrder_mc_impl_zip.cfg", expect_violation=True)
     ctx.tlc("PartsOrderMC", "PartsOrder_mc_impl_query.cfg", expect_violation=True)
+    ctx.tlc("PartsOrderMC", "PartsOrder_mc_impl_convention.cfg", expect_violation=True)
     ctx.exhaustive = True
     # ---- R2 -------------------------------------------------------------------
     gen = ctx.tlc("PartsOrderMC", "PartsOrder_gen_quick.cfg" if q else "PartsOrder_gen_thorough.cfg", workers=1 if q else 8,
@@ -145,7 +153,8 @@ def run(ctx):
     ctx.extra["packages_exhaustive"] = len(gen["cases"])
     ctx.extra["packages_simulated"] = len(cases) - len(gen["cases"])
     ng = len(gen["cases"])
-    picks = [cases[0], cases[ng // 5], cases[2 * ng // 5], cases[3 * ng // 5], cases[4 * ng // 5], cases[ng - 1], cases[-1], cases[-2], cases[-3]]
+    miss = [c for c in cases if c["prof"]["missing"] > 0]
+    picks = [miss[0], miss[len(miss) // 2], miss[-1], cases[0], cases[ng // 5], cases[2 * ng // 5], cases[3 * ng // 5], cases[4 * ng // 5], cases[ng - 1], cases[-1], cases[-2], cases[-3]]
     _selftest(ctx, picks)
     for c in (cases[ng // 3], cases[-1]):
         ctx.sample({"fmt": c["fmt"], "profile": c["prof"], "parts": [{"id": p["id"], "decl": p["decl"], "rel": p["rel"], "zip": p["zip"],
